@@ -171,6 +171,10 @@ func Norm(v any) any {
 		return o
 	case json.Number:
 		return x.String()
+	case string:
+		if x == "y:" {
+			return nil // empty bytes ≡ absent (collection)
+		}
 	}
 	return v
 }
@@ -178,20 +182,45 @@ func Norm(v any) any {
 // Diff compares two trees after normalisation and returns the differences as
 // "path: want X got Y" strings (empty = equal).
 func Diff(want, got any) []string {
-	var out []string
+	ds := DiffS(want, got)
+	out := make([]string, len(ds))
+	for i, d := range ds {
+		out[i] = d.String()
+	}
+	return out
+}
+
+// D is one structural difference.
+type D struct {
+	Path string
+	Want any
+	Got  any
+	Note string
+}
+
+func (d D) String() string {
+	if d.Note != "" {
+		return fmt.Sprintf("%s: %s", d.Path, d.Note)
+	}
+	return fmt.Sprintf("%s: want %s, got %s", d.Path, Show(d.Want), Show(d.Got))
+}
+
+// DiffS is Diff with structured results.
+func DiffS(want, got any) []D {
+	var out []D
 	diff("", Norm(want), Norm(got), &out)
 	return out
 }
 
-func diff(path string, w, g any, out *[]string) {
+func diff(path string, w, g any, out *[]D) {
 	if len(*out) > 20 {
 		return
 	}
 	if wm, ok := w.(map[string]any); ok {
 		if alts, ok := wm["$alt"].([]any); ok {
-			var first []string
+			var first []D
 			for i, a := range alts {
-				var sub []string
+				var sub []D
 				diff(path, a, g, &sub)
 				if len(sub) == 0 {
 					return
@@ -200,7 +229,11 @@ func diff(path string, w, g any, out *[]string) {
 					first = sub
 				}
 			}
-			*out = append(*out, fmt.Sprintf("%s: no alternative matches (first: %s)", path, strings.Join(first, "; ")))
+			if len(first) > 0 {
+				f := first[0]
+				f.Note = "no alternative matches; first alternative: " + f.String()
+				*out = append(*out, f)
+			}
 			return
 		}
 	}
@@ -210,21 +243,21 @@ func diff(path string, w, g any, out *[]string) {
 			if gm, ok := g.(map[string]any); ok && len(gm) == 0 {
 				return // empty object vs absent object: objects are never "empty ≡ absent" except when both normalise so
 			}
-			*out = append(*out, fmt.Sprintf("%s: want absent, got %s", path, Show(g)))
+			*out = append(*out, D{Path: path, Want: nil, Got: g})
 		}
 	case string:
 		gs, ok := g.(string)
 		if !ok || !leafEq(x, gs) {
-			*out = append(*out, fmt.Sprintf("%s: want %s, got %s", path, Show(w), Show(g)))
+			*out = append(*out, D{Path: path, Want: w, Got: g})
 		}
 	case []any:
 		ga, ok := g.([]any)
 		if !ok {
-			*out = append(*out, fmt.Sprintf("%s: want %s, got %s", path, Show(w), Show(g)))
+			*out = append(*out, D{Path: path, Want: w, Got: g})
 			return
 		}
 		if len(ga) != len(x) {
-			*out = append(*out, fmt.Sprintf("%s: want %d elements, got %d (%s vs %s)", path, len(x), len(ga), Show(w), Show(g)))
+			*out = append(*out, D{Path: path, Want: w, Got: g, Note: fmt.Sprintf("want %d elements, got %d (%s vs %s)", len(x), len(ga), Show(w), Show(g))})
 			return
 		}
 		for i := range x {
@@ -236,13 +269,13 @@ func diff(path string, w, g any, out *[]string) {
 			if g == nil && len(x) == 0 {
 				return
 			}
-			*out = append(*out, fmt.Sprintf("%s: want %s, got %s", path, Show(w), Show(g)))
+			*out = append(*out, D{Path: path, Want: w, Got: g})
 			return
 		}
 		if wm, ok := IsMap(w); ok {
 			gmm, ok := IsMap(g)
 			if !ok {
-				*out = append(*out, fmt.Sprintf("%s: want map, got %s", path, Show(g)))
+				*out = append(*out, D{Path: path, Want: w, Got: g})
 				return
 			}
 			keys := map[string]bool{}
@@ -258,7 +291,7 @@ func diff(path string, w, g any, out *[]string) {
 			return
 		}
 		if _, ok := IsMap(g); ok {
-			*out = append(*out, fmt.Sprintf("%s: want object, got map %s", path, Show(g)))
+			*out = append(*out, D{Path: path, Want: w, Got: g})
 			return
 		}
 		keys := map[string]bool{}
@@ -272,7 +305,7 @@ func diff(path string, w, g any, out *[]string) {
 			diff(path+"."+k, x[k], gm[k], out)
 		}
 	default:
-		*out = append(*out, fmt.Sprintf("%s: unexpected node %T", path, w))
+		*out = append(*out, D{Path: path, Want: w, Got: g, Note: fmt.Sprintf("unexpected node %T", w)})
 	}
 }
 
@@ -291,6 +324,9 @@ func leafEq(a, b string) bool {
 	}
 	ka, kb := Kind(a), Kind(b)
 	if ka != kb {
+		if ka == "a" || kb == "a" {
+			return anyJSON(a) == anyJSON(b) && anyJSON(a) != ""
+		}
 		return false
 	}
 	switch ka {
@@ -371,3 +407,28 @@ func IsZeroLeaf(v any) bool {
 
 // Alt builds an alternatives node: the value must equal one of the given trees.
 func Alt(alts ...any) any { return map[string]any{"$alt": alts} }
+
+// anyJSON renders a leaf as canonical JSON (for comparing `any` leaves with typed leaves).
+func anyJSON(l string) string {
+	var x any
+	switch Kind(l) {
+	case "a":
+		if json.Unmarshal([]byte(Text(l)), &x) != nil {
+			return ""
+		}
+	case "b":
+		x = Text(l) == "true"
+	case "i", "u", "f", "f32":
+		f, err := strconv.ParseFloat(Text(l), 64)
+		if err != nil {
+			return ""
+		}
+		x = f
+	case "s":
+		x = Text(l)
+	default:
+		return ""
+	}
+	b, _ := json.Marshal(x)
+	return string(b)
+}
